@@ -129,6 +129,16 @@ type Sys struct {
 	// Before is what was observable immediately before the most recent
 	// close+reopen event.
 	Before *Obs
+	// OnReopen, if set, is called after every close+reopen event; it returns
+	// whether the reopened database disagrees with the model and the precise
+	// class of that failure. A disagreement taints the system: everything that
+	// happens afterwards is a consequence of a failure that is reported for the
+	// path prefix ending with that reopen.
+	OnReopen   func(s *Sys) (class string, bad bool)
+	Tainted    bool
+	TaintClass string
+	// Log is the list of primitive events applied so far.
+	Log []Event
 	// PersistOffs collects the offset of the state returned by every persist
 	// event, in order (used by the history checks C05/C19).
 	PersistOffs []uint64
@@ -199,6 +209,9 @@ func try(f func()) (failed bool, msg string, runtimeErr bool) {
 // returns a description of any disagreement about its outcome ("" if none).
 // It does not compare states; use Compare for that.
 func (s *Sys) Apply(ev Event) string {
+	if ev.Kind != "seq" {
+		s.Log = append(s.Log, ev)
+	}
 	switch ev.Kind {
 	case "admin":
 		want := s.M.Admin(*ev.Req)
@@ -233,6 +246,11 @@ func (s *Sys) Apply(ev Event) string {
 		}
 		if err != nil {
 			return "reopen after clean close failed: " + err.Error()
+		}
+		if s.OnReopen != nil && !s.Tainted {
+			if class, bad := s.OnReopen(s); bad {
+				s.Tainted, s.TaintClass = true, class
+			}
 		}
 	case "seq":
 		for _, e := range ev.Seq {
